@@ -13,7 +13,7 @@ var OddNodeKinds = []string{"noalloc", "zerocap", "zerocpu", "emptyprov", "short
 
 // OddPodKinds are the malformed pod shapes of the chaos profile (C20).
 var OddPodKinds = []string{"nocontainers", "norequests", "affinityEmpty", "nodeAffinityEmpty", "requiredEmpty", "termNoExpr", "exprNoValues",
-	"hugeReq", "noConditions", "negReq", "initOnly", "overheadOnly", "unknownNode", "nilEverything"}
+	"hugeReq", "bigCPU", "bigMem", "noConditions", "negReq", "initOnly", "overheadOnly", "unknownNode", "nilEverything"}
 
 // applyOddNode registers a node of group a.Group backed by a fresh ASG instance, then bends it.
 func (w *World) applyOddNode(a Action) {
@@ -76,6 +76,10 @@ func (w *World) applyOddPod(a Action) {
 			{MatchExpressions: []v1.NodeSelectorRequirement{{Key: o.LabelKey, Operator: v1.NodeSelectorOpIn}}}}}}}
 	case "hugeReq":
 		p.Spec.Containers[0].Resources.Requests = v1.ResourceList{v1.ResourceCPU: resource.MustParse("9E"), v1.ResourceMemory: resource.MustParse("8Ei")}
+	case "bigCPU": // absurd but representable: 9e15 cores = 9e18 millicores
+		p.Spec.Containers[0].Resources.Requests = v1.ResourceList{v1.ResourceCPU: resource.MustParse("9P")}
+	case "bigMem": // 9e15 bytes: still representable in milli-bytes
+		p.Spec.Containers[0].Resources.Requests = v1.ResourceList{v1.ResourceMemory: resource.MustParse("9P")}
 	case "negReq":
 		p.Spec.Containers[0].Resources.Requests = v1.ResourceList{v1.ResourceCPU: resource.MustParse("-1"), v1.ResourceMemory: resource.MustParse("-1Gi")}
 	case "noConditions":
